@@ -237,7 +237,7 @@ func rulePErrFlow(p *Program, r *Reporter) {
 						}
 						return true
 					})
-					if bad == "" && !terminates(ifs.Body.List) {
+					if bad == "" && !terminates(ifs.Body.List) && !returnsSameError(pk, nextStmt(body, ifs), ev, errIdx) {
 						bad = "the error branch falls through and evaluation continues"
 					}
 					if bad != "" {
@@ -251,6 +251,46 @@ func rulePErrFlow(p *Program, r *Reporter) {
 			visit(fd.Body, fd.Type, pk.Name+"."+DeclName(fd))
 		})
 	}
+}
+
+// nextStmt: the statement that follows s in the statement list that contains it.
+func nextStmt(body *ast.BlockStmt, s ast.Stmt) ast.Stmt {
+	var next ast.Stmt
+	scan := func(list []ast.Stmt) {
+		for i, x := range list {
+			if x == s && i+1 < len(list) {
+				next = list[i+1]
+			}
+		}
+	}
+	ast.Inspect(body, func(nd ast.Node) bool {
+		switch b := nd.(type) {
+		case *ast.BlockStmt:
+			scan(b.List)
+		case *ast.CaseClause:
+			scan(b.Body)
+		case *ast.CommClause:
+			scan(b.Body)
+		}
+		return next == nil
+	})
+	return next
+}
+
+// returnsSameError: s is a return statement whose error result is the variable ev (the branch only took note of the
+// error; the statement after it hands the same error on).
+func returnsSameError(pk *packages.Package, s ast.Stmt, ev ast.Expr, errIdx int) bool {
+	ret, ok := s.(*ast.ReturnStmt)
+	if !ok || len(ret.Results) <= errIdx {
+		return false
+	}
+	a, ok1 := ast.Unparen(ret.Results[errIdx]).(*ast.Ident)
+	b, ok2 := ast.Unparen(ev).(*ast.Ident)
+	if !ok1 || !ok2 {
+		return false
+	}
+	oa, ob := pk.TypesInfo.Uses[a], pk.TypesInfo.Uses[b]
+	return oa != nil && oa == ob
 }
 
 // ---------------------------------------------------------------- P-CHARCLASS
